@@ -1,6 +1,7 @@
 package main
 
 import (
+	"strings"
 	"encoding/json"
 	"flag"
 	"fmt"
@@ -37,8 +38,35 @@ func envSeed(tier string) uint64 {
 	return 1
 }
 
+// memWatchdog: no plan, shrink step or changed library may take the machine down. A
+// process whose resident set passes the cap stops with exit 2 (harness trouble, never a
+// verdict on the property). The -race stress binary is exempt (the race runtime's own
+// shadow memory is large but bounded by its workload).
+func memWatchdog(capBytes int64) {
+	page := int64(os.Getpagesize())
+	for {
+		time.Sleep(300 * time.Millisecond)
+		b, err := os.ReadFile("/proc/self/statm")
+		if err != nil {
+			return
+		}
+		f := strings.Fields(string(b))
+		if len(f) < 2 {
+			return
+		}
+		rss, _ := strconv.ParseInt(f[1], 10, 64)
+		if rss*page > capBytes {
+			fmt.Fprintf(os.Stderr, "simcheck: HARNESS ERROR: resident set %d MB exceeds the %d MB cap (args %v); stopping with exit 2, not a verdict on the property\n", rss*page>>20, capBytes>>20, os.Args[1:])
+			os.Exit(2)
+		}
+	}
+}
+
 func main() {
 	debug.SetGCPercent(400) // runs are allocation-heavy and short-lived
+	if len(os.Args) > 1 && os.Args[1] != "stress" {
+		go memWatchdog(5 << 30)
+	}
 	if len(os.Args) < 2 {
 		usage()
 	}
